@@ -277,6 +277,18 @@ class Source:
         node = tree
         for p in parts:
             found = None
+            if p.endswith('@setter'):
+                # the setter of a property:  @<name>.setter  def <name>(self, value)
+                nm = p[:-len('@setter')]
+                for n in ast.walk(node):
+                    if isinstance(n, ast.FunctionDef) and n.name == nm and any(
+                            isinstance(d, ast.Attribute) and d.attr == 'setter' for d in n.decorator_list):
+                        found = n
+                        break
+                if found is None:
+                    raise Unsupported(f'setter {nm} not found')
+                node = found
+                continue
             # search direct body first, then nested statement bodies (if/try at module level)
             for n in ast.walk(node) if node is tree else ast.iter_child_nodes(node):
                 if isinstance(n, (ast.FunctionDef, ast.ClassDef, ast.AsyncFunctionDef)) and n.name == p:
